@@ -190,60 +190,28 @@ impl Hooks {
     { unimplemented!() }
 }
 
-// ---- cross-contract queries (engine/src/querier.rs, packages/margined_perp/src/querier.rs: thin deps.querier.query wrappers,
-//      not extracted). The answer is a function of the querier (the committed state of the other contracts, T5e). ----
-pub uninterp spec fn q_vamm_config(q: QuerierWrapper, vamm: Seq<char>) -> VammConfigResponse;
-pub uninterp spec fn q_vamm_state(q: QuerierWrapper, vamm: Seq<char>) -> VammStateResponse;
-pub uninterp spec fn q_vamm_output_amount(q: QuerierWrapper, vamm: Seq<char>, d: Direction, amount: Uint128) -> Uint128;
-pub uninterp spec fn q_vamm_output_twap(q: QuerierWrapper, vamm: Seq<char>, d: Direction, amount: Uint128) -> Uint128;
-pub uninterp spec fn q_vamm_calc_fee(q: QuerierWrapper, vamm: Seq<char>, amount: Uint128) -> CalcFeeResponse;
-pub uninterp spec fn q_vamm_over_spread(q: QuerierWrapper, vamm: Seq<char>) -> bool;
-pub uninterp spec fn q_vamm_underlying_price(q: QuerierWrapper, vamm: Seq<char>) -> Uint128;
-pub uninterp spec fn q_vamm_over_fluctuation(q: QuerierWrapper, vamm: Seq<char>, d: Direction, amount: Uint128) -> bool;
-pub uninterp spec fn q_insurance_is_vamm(q: QuerierWrapper, insurance: Seq<char>, vamm: Seq<char>) -> bool;
-pub uninterp spec fn q_token_balance(q: QuerierWrapper, token: AssetInfo, account: Seq<char>) -> Uint128;
-
-#[verifier::external_body]
-pub fn query_vamm_config(deps: &Deps, address: String) -> (r: StdResult<VammConfigResponse>)
-    ensures r is Ok ==> r->Ok_0 == q_vamm_config(deps.querier, address@),
-{ unimplemented!() }
-#[verifier::external_body]
-pub fn query_vamm_state(deps: &Deps, address: String) -> (r: StdResult<VammStateResponse>)
-    ensures r is Ok ==> r->Ok_0 == q_vamm_state(deps.querier, address@),
-{ unimplemented!() }
-#[verifier::external_body]
-pub fn query_vamm_output_amount(deps: &Deps, address: String, direction: Direction, amount: Uint128) -> (r: StdResult<Uint128>)
-    ensures r is Ok ==> r->Ok_0 == q_vamm_output_amount(deps.querier, address@, direction, amount),
-{ unimplemented!() }
-#[verifier::external_body]
-pub fn query_vamm_output_twap(deps: &Deps, address: String, direction: Direction, amount: Uint128) -> (r: StdResult<Uint128>)
-    ensures r is Ok ==> r->Ok_0 == q_vamm_output_twap(deps.querier, address@, direction, amount),
-{ unimplemented!() }
-#[verifier::external_body]
-pub fn query_vamm_calc_fee(deps: &Deps, address: String, quote_asset_amount: Uint128) -> (r: StdResult<CalcFeeResponse>)
-    ensures r is Ok ==> r->Ok_0 == q_vamm_calc_fee(deps.querier, address@, quote_asset_amount),
-{ unimplemented!() }
-#[verifier::external_body]
-pub fn query_vamm_over_spread_limit(deps: &Deps, address: String) -> (r: StdResult<bool>)
-    ensures r is Ok ==> r->Ok_0 == q_vamm_over_spread(deps.querier, address@),
-{ unimplemented!() }
-#[verifier::external_body]
-pub fn query_vamm_underlying_price(deps: &Deps, address: String) -> (r: StdResult<Uint128>)
-    ensures r is Ok ==> r->Ok_0 == q_vamm_underlying_price(deps.querier, address@),
-{ unimplemented!() }
-#[verifier::external_body]
-pub fn query_is_over_fluctuation_limit(deps: &Deps, vamm: String, direction: Direction, base_asset_amount: Uint128) -> (r: StdResult<bool>)
-    ensures r is Ok ==> r->Ok_0 == q_vamm_over_fluctuation(deps.querier, vamm@, direction, base_asset_amount),
-{ unimplemented!() }
-#[verifier::external_body]
-pub fn query_insurance_is_vamm(deps: &Deps, insurance: String, vamm: String) -> (r: StdResult<VammResponse>)
-    ensures r is Ok ==> r->Ok_0.is_vamm == q_insurance_is_vamm(deps.querier, insurance@, vamm@),
-{ unimplemented!() }
-// margined_perp::querier::query_token_balance: bank / cw20 balance of `account_addr` (unwraps => abort on failure)
-#[verifier::external_body]
-pub fn query_token_balance(deps: Deps, token: AssetInfo, account_addr: Addr) -> (r: StdResult<Uint128>)
-    ensures r is Ok ==> r->Ok_0 == q_token_balance(deps.querier, token, account_addr@),
-{ unimplemented!() }
+// ---- cross-contract queries: what each wrapper of engine/src/querier.rs and margined_perp/src/querier.rs asks for.
+//      The wrappers themselves are extracted (specs/engine.vrs) and verified against QuerierWrapper::query (shim/ctx.rs). ----
+pub open spec fn smart(addr: Seq<char>, p: Payload) -> QueryView { QueryView::Smart { addr: addr, payload: p } }
+pub open spec fn q_vamm_config(q: QuerierWrapper, vamm: Seq<char>) -> VammConfigResponse { query_answer::<VammConfigResponse>(q, smart(vamm, Payload::VammQConfig)) }
+pub open spec fn q_vamm_state(q: QuerierWrapper, vamm: Seq<char>) -> VammStateResponse { query_answer::<VammStateResponse>(q, smart(vamm, Payload::VammQState)) }
+pub open spec fn q_vamm_output_amount(q: QuerierWrapper, vamm: Seq<char>, d: Direction, amount: Uint128) -> Uint128 { query_answer::<Uint128>(q, smart(vamm, Payload::VammQOutputAmount { direction: d, amount })) }
+pub open spec fn q_vamm_output_twap(q: QuerierWrapper, vamm: Seq<char>, d: Direction, amount: Uint128) -> Uint128 { query_answer::<Uint128>(q, smart(vamm, Payload::VammQOutputTwap { direction: d, amount })) }
+pub open spec fn q_vamm_calc_fee(q: QuerierWrapper, vamm: Seq<char>, amount: Uint128) -> CalcFeeResponse { query_answer::<CalcFeeResponse>(q, smart(vamm, Payload::VammQCalcFee { quote_asset_amount: amount })) }
+pub open spec fn q_vamm_over_spread(q: QuerierWrapper, vamm: Seq<char>) -> bool { query_answer::<bool>(q, smart(vamm, Payload::VammQOverSpread)) }
+pub open spec fn q_vamm_underlying_price(q: QuerierWrapper, vamm: Seq<char>) -> Uint128 { query_answer::<Uint128>(q, smart(vamm, Payload::VammQUnderlyingPrice)) }
+pub open spec fn q_vamm_over_fluctuation(q: QuerierWrapper, vamm: Seq<char>, d: Direction, amount: Uint128) -> bool { query_answer::<bool>(q, smart(vamm, Payload::VammQOverFluctuation { direction: d, base_asset_amount: amount })) }
+pub open spec fn q_insurance_is_vamm(q: QuerierWrapper, insurance: Seq<char>, vamm: Seq<char>) -> bool { query_answer::<VammResponse>(q, smart(insurance, Payload::FundQIsVamm { vamm })).is_vamm }
+pub open spec fn q_token_balance(q: QuerierWrapper, token: AssetInfo, account: Seq<char>) -> Uint128 {
+    match token {
+        AssetInfo::NativeToken { denom } => query_answer::<BalanceResponse>(q, QueryView::BankBalance { address: account, denom: denom@ }).amount.amount,
+        AssetInfo::Token { contract_addr } => query_answer::<CW20BalanceResponse>(q, smart(contract_addr@, Payload::Cw20QBalance { address: account })).balance,
+    }
+}
+// cosmwasm_std::BalanceResponse / cw20::BalanceResponse / cw20::Cw20QueryMsg (dependency types)
+pub struct BalanceResponse { pub amount: Coin }
+pub struct CW20BalanceResponse { pub balance: Uint128 }
+pub enum Cw20QueryMsg { Balance { address: String } }
 
 // ---- closure / iterator / string functions outside the subset (T6) ----
 // utils::get_asset: funds attached in the collateral denom (native) or zero (cw20)
